@@ -29,6 +29,7 @@ type Config struct {
 	MaxViolPerLabel int
 	Thorough     bool
 	MaxPreemptions int // context bound of the cooperative scheduler
+	MaxOrderDeviations int // iterations per path that may leave insertion order in order-free mode
 }
 
 // Shared is the read-only state shared by all workers.
@@ -138,6 +139,8 @@ type interpreter struct {
 	memo    map[string]memoEntry // verifMemo results, per worker, across paths
 	randCtr int32 // deterministic stand-in for math/rand (unique tokens)
 	orderFree bool
+	fbitsMemo map[int]*smt.Term // float term -> its bit-vector variable, per path
+	orderBudget int // iterations that may still leave insertion order (deviation bounding)
 	capNondet bool
 	inPlaceAppends int
 	initPoison []string
@@ -588,6 +591,8 @@ func (i *interpreter) runPath(it workItem) (newItems []workItem) {
 	i.depth = 0
 	i.nondets = i.nondets[:0]
 	i.orderFree = false
+	i.orderBudget = 0
+	i.fbitsMemo = nil
 	i.randCtr = 1 << 20
 	i.capNondet = false
 	i.inPlaceAppends = 0
